@@ -61,6 +61,17 @@
       with [conformsb] on every observed example (tag [corr_conforms_agree]); [prop_conforms]
       still evaluates [conformsb] on every observed example.
 
+      UPDATE 3: the passage through [emit_module] + [parse_module] IS NOW PROVED (end of this file,
+      Proofs/ConformsTokens.v, Proofs/ConformsCase.v): inside the decidable scope [reader_scopeb]
+      the relation on the IR implies acceptance by the independent reader [conformsb] run on
+      [parse_module] of the model's emission and on the model's resolved paths
+      ([C14_conformsb_of_ir]); every Ok example of the model is accepted ([C14_conforms_tokens]);
+      on a case whose observed module / paths / examples equal the model's, [prop_conforms] holds
+      ([C14_prop_conforms_of_corr]).  The scope is necessary ([C14_reader_scope_clauses_needed]):
+      the reader is stricter than the relation e.g. on [Cow<Cow<T>>] (fuel) and on a field called
+      [__ignore].  The converse (reader accepts => relation) is not proved; on the F15 witness both
+      refuse ([C14_F15_refused_by_reader]).
+
     Determinism: [example_rust] is a Gallina function of (r, s, id, ws). *)
 From Coq Require Import List NArith ZArith String.
 From V Require Import Base.Result Model.Registry Model.Settings Model.RngWords Model.Generate Model.Equal
